@@ -1,4 +1,5 @@
 import Cellml.C02.Semantics
+import Cellml.C02.Table
 
 /-! Helper lemmas for `Cellml.Props.C02`: the algebraic core (`call_sound`: applying the operator value to the
     transpiled operands computes what MathML 2 says), the list-level lemmas and the induction over all trees. -/
